@@ -275,7 +275,7 @@ def is_coinbase(tx):
 def stats_expected(blocks_with_heights, coin):
     s = dict(blocks=0, txs=0, ins=0, outs=0, fees=0, volume=0, big_value=(0, 0, '0' * 64), big_size=(0, 0, '0' * 64),
              sizes=[], gaps=[], types={}, first={})
-    last_t = 0
+    last_t = None
     for h, b in blocks_with_heights:
         s['blocks'] += 1
         s['txs'] += len(b['txs'])
@@ -299,7 +299,7 @@ def stats_expected(blocks_with_heights, coin):
             if sz > s['big_size'][0]:
                 s['big_size'] = (sz, h, tid)
         t, = struct.unpack('<I', b['hdr'][68:72])
-        if last_t > 0:
+        if last_t is not None:
             s['gaps'].append(max(0, t - last_t))
         last_t = t
     return s
